@@ -1,4 +1,7 @@
 (* C07 — References obey aliasing-xor-mutation and never outlive their referent.
+   BorLang conditions of if / while are a flag, a comparison reading a place, or a call taking a reference (a use of it);
+   `else if` chains are SIf c1 A [SIf c2 B C] (the checker treats a nested IfStmt like a block holding only that if);
+   the correspondence renders them with real `else if` syntax.
    Model: Models/Borrow.v = port of internal/hir/analysis/borrow.go over BorLang (`bc`, `accept`), the loan-liveness
    specification `safe`, and a store model (`vget`/`vset`) for write-through.  The port is tied to the working tree on
    every run by harness/c07.py (diagnostic kinds per generated script; python oracle; program output).
